@@ -165,6 +165,10 @@ THEOREM_CLASS_PROBLEMS = [
     # sparse2 (`sparse2_kernel_correct`): two-level compressed copy / scale
     ("a(i,j) = b(i,j)", {"a": "ss", "b": "ss"}),
     ("a(i,j) = 2 * b(i,j)", {"a": "ss", "b": "ss"}),
+    # csr (`csr_kernel_correct`), spdot (`spdot_kernel_correct`), d2s (`d2s_kernel_correct`)
+    ("a(i,j) = 2 * b(i,j)", {"a": "ds", "b": "ds"}),
+    ("a() = b(i) * c(i)", {"a": "", "b": "s", "c": "s"}),
+    ("a(i) = b(i)", {"a": "s", "b": "d"}),
     # denseTerm (`denseTerm_kernel_correct`): matrix product, dot product
     ("a(i,j) = b(i,k) * c(k,j)", {"a": "dd", "b": "dd", "c": "dd"}),
     ("a() = b(i) * c(i)", {"a": "", "b": "d", "c": "d"}),
